@@ -118,7 +118,7 @@ fn c01(tier: Tier) -> Vec<Space> {
         asmprops::groups(p),
         asmprops::soak(p),
         asmprops::soak_long(p, if tier == Tier::Quick { 200_000 } else { 1_000_000 }),
-        asmprops::wrap(p, tier == Tier::Thorough),
+        asmprops::wrap_light(p, tier == Tier::Thorough),
         line_numeric(p),
         line_lengths(p),
         asmprops::hist_space(p, if tier == Tier::Quick { 4 } else { 5 }),
@@ -151,7 +151,7 @@ fn c18(tier: Tier) -> Vec<Space> {
         asmprops::groups(p),
         asmprops::soak(p),
         asmprops::soak_long(p, if tier == Tier::Quick { 200_000 } else { 1_000_000 }),
-        asmprops::wrap(p, tier == Tier::Thorough),
+        asmprops::wrap_light(p, tier == Tier::Thorough),
         line_numeric(p),
         line_lengths(p),
         asmprops::hist_space(p, if tier == Tier::Quick { 4 } else { 5 }),
